@@ -477,3 +477,16 @@ Proof.
   intros w p Hp Hs Hl Hc. unfold p_remove_dir. destruct p as [|a p]; [congruence|].
   remember (a :: p) as ap. unfold log, with_fs. cbn [w_fs w_tr]. rewrite Hs. cbn [negb]. rewrite Hl, Hc. reflexivity.
 Qed.
+
+Lemma p_lstat_q_spec : forall w p r w',
+  p_lstat_q w p = (r, w') ->
+  last_safe w w' OLstatQ p (safe (w_fs w) p) /\ w_fs w' = w_fs w /\
+  ((r = LUnsafe /\ safe (w_fs w) p = false)
+   \/ (safe (w_fs w) p = true /\
+       match lookup (w_fs w) p with Some e => r = LSome e | None => r = LNone end)).
+Proof.
+  unfold p_lstat_q, last_safe, log. intros w p r w' H. cbn in H.
+  destruct (safe (w_fs w) p); cbn in H.
+  - destruct (lookup (w_fs w) p) eqn:E; inversion H; subst; cbn; repeat split; auto.
+  - inversion H; subst; cbn. repeat split; auto.
+Qed.
